@@ -1392,6 +1392,63 @@ func (x *extractor) factsWork() {
 		})
 		verify = strings.Join(parts, ";")
 	}
+	// every call VerifySignature makes (a memo or cache of earlier verdicts would show here) and its accepting returns
+	vcalls := "unknown"
+	if fd := x.fn(wc, "Workceptor", "VerifySignature"); fd != nil {
+		var calls []string
+		accepts := 0
+		ast.Inspect(fd, func(n ast.Node) bool {
+			switch v := n.(type) {
+			case *ast.CallExpr:
+				f := x.str(v.Fun)
+				if f != "fmt.Errorf" && f != "err.Error" {
+					calls = append(calls, f)
+				}
+			case *ast.ReturnStmt:
+				if len(v.Results) == 1 && x.str(v.Results[0]) == "nil" {
+					accepts++
+				}
+			}
+			return true
+		})
+		vcalls = strings.Join(calls, ";") + fmt.Sprintf(";accepting-returns:%d", accepts)
+	}
+	x.set("sig_verify_calls", vcalls)
+	// the work-type name is looked up as given, by the gate and by the allocation alike
+	lookup := func(fn string) string {
+		fd := x.fn(wc, "Workceptor", fn)
+		if fd == nil || fd.Type.Params == nil || len(fd.Type.Params.List) == 0 || len(fd.Type.Params.List[0].Names) == 0 {
+			return fn + ":unknown"
+		}
+		param := fd.Type.Params.List[0].Names[0].Name
+		var idx []string
+		modified := false
+		ast.Inspect(fd, func(n ast.Node) bool {
+			switch v := n.(type) {
+			case *ast.IndexExpr:
+				if strings.HasSuffix(x.str(v.X), "workTypes") {
+					idx = append(idx, x.str(v))
+				}
+			case *ast.AssignStmt:
+				for _, l := range v.Lhs {
+					if id, ok := l.(*ast.Ident); ok && id.Name == param {
+						modified = true
+					}
+				}
+			case *ast.IncDecStmt:
+				if id, ok := v.X.(*ast.Ident); ok && id.Name == param {
+					modified = true
+				}
+			}
+			return true
+		})
+		m := "param-unmodified"
+		if modified {
+			m = "param-modified"
+		}
+		return fn + ":" + strings.Join(idx, ",") + "," + m
+	}
+	x.set("sig_type_lookup", lookup("ShouldVerifySignature")+";"+lookup("AllocateUnit"))
 	x.set("sig_gate", gate)
 	x.set("sig_should", should)
 	x.set("sig_unix", unix)
@@ -2257,4 +2314,36 @@ func (x *extractor) factsStream() {
 		ad = fmt.Sprintf("transports:%d;lost-not-fatal:%s", n, swallow)
 	}
 	x.set("stream_quic_adapter", ad)
+	// forwardMessage: every error it returns once the routing table has named a next hop (the connection to it has
+	// gone, or is going) carries the sentinel that the adapter recognises
+	gone := "unknown"
+	if fd := x.fn("pkg/netceptor/netceptor.go", "Netceptor", "forwardMessage"); fd != nil {
+		var parts []string
+		seenConnLookup := false
+		ast.Inspect(fd.Body, func(m ast.Node) bool {
+			switch v := m.(type) {
+			case *ast.AssignStmt:
+				if strings.Contains(x.str(v), "s.connections[nextHop]") {
+					seenConnLookup = true
+				}
+			case *ast.ReturnStmt:
+				if !seenConnLookup || len(v.Results) != 1 {
+					return true
+				}
+				r := x.str(v.Results[0])
+				switch {
+				case r == "nil" || r == "err":
+				case r == "ErrNoConnectionToNextHop":
+					parts = append(parts, "sentinel")
+				case strings.Contains(r, "%w") && strings.HasSuffix(r, "ErrNoConnectionToNextHop)"):
+					parts = append(parts, "wraps-sentinel")
+				default:
+					parts = append(parts, "other:"+r)
+				}
+			}
+			return true
+		})
+		gone = strings.Join(parts, ";")
+	}
+	x.set("stream_link_gone_errors", gone)
 }
